@@ -617,15 +617,13 @@ def qufirst(ctx: Any) -> List[Ob]:
         roles = request_roles(ctx)
     except NoNextQueryTime:
         return obs + no_next_obligation(ctx, R)
-    from .c18 import round_type_value
+    from .c18 import round_type_values
 
-    rt_expr = round_type_value(ctx, roles)
     for forced in (None, QU, QM):
         for is_first in (True, False):
-            ev = fd.Evaluator(prog, rq.module, {p_qt: forced, roles['first']: is_first})
-            v = ev.ev(rt_expr)
+            vs = round_type_values(ctx, roles, forced, is_first)
             want = (forced if forced is not None else QU) if is_first else QM
-            obs.append(ob(R, rq, f'lookup: forced={forced} first={is_first}', f'question type is {want}', v == want, f'got {v}'))
+            obs.append(ob(R, rq, f'lookup: forced={forced} first={is_first}', f'question type is {want}', vs == {want}, f'got {sorted(map(str, vs))}'))
     gq = prog.func('zeroconf._services.info.ServiceInfo._generate_request_query')
     from .common import expand as _xp
 
@@ -640,9 +638,21 @@ def qufirst(ctx: Any) -> List[Ob]:
     asg2 = qes
     obs.append(ob(R, gq, asg2[0] if asg2 else 'qu_question', 'the lookup asks QU exactly when its question type is QU', ok2))
     # first_request is cleared after the first query
-    fr = [n for n in cfg.nodes if n.kind == 'stmt' and isinstance(n.ast, ast.Assign) and isinstance(n.ast.targets[0], ast.Name) and n.ast.targets[0].id == roles['first'] and norm(n.ast.value) == 'False']
-    gen = cfg.nodes_calling('_generate_request_query')
-    obs.append(ob(R, rq, 'first_request = False', 'the first-request flag is cleared once a query was generated', bool(fr) and bool(gen) and all(cfg.dominates(g_, f_) for g_ in gen for f_ in fr)))
+    # ... along every path of one trip of the loop that starts with the flag set: where a query was generated the flag is clear
+    # at the end of the trip, and where none was it is still set
+    lts_f = [n for n in cfg.nodes if n.kind == 'loop_test']
+
+    def eff_g(node: Any, evl: Any) -> List[Any]:
+        return ['GEN' for c in fd.node_calls(node, evl) if call_name(c) == '_generate_request_query']
+
+    def fin_f(evl: Any) -> List[Any]:
+        v = evl.ev(ast.Name(id=roles['first'], ctx=ast.Load()))
+        return [('FIRST', 'UNKNOWN' if isinstance(v, fd._Unknown) else v)]
+
+    oc_f, _ = fd.run_paths(prog, rq.module, cfg, {'._is_complete': False}, eff_g, start=lts_f[0], stop=lambda n: n is lts_f[0], init_locals={roles['first']: True}, loop_bound=1, final_fn=fin_f) if len(lts_f) == 1 else (set(), [])
+    trips = [t for t in oc_f if any(isinstance(x, tuple) and x[0] == 'FIRST' for x in t) and not any(isinstance(x, tuple) and x[0] in ('ret', 'raise') for x in t)]
+    bad_f = [t for t in trips if dict(x for x in t if isinstance(x, tuple) and x[0] == 'FIRST')['FIRST'] is not ('GEN' not in t)]
+    obs.append(ob(R, rq, 'first_request = False', 'the first-request flag is cleared once a query was generated', bool(trips) and any('GEN' in t for t in trips) and not bad_f, f'trips that end otherwise: {sorted(map(str, bad_f))[:2]}'))
     return obs
 
 
@@ -667,7 +677,23 @@ def const(ctx: Any) -> List[Ob]:
         return obs + no_next_obligation(ctx, R)
     nxt = [st for st in walk_local_ordered(rq.node) if isinstance(st, (ast.Assign, ast.AugAssign)) and norm(st.targets[0] if isinstance(st, ast.Assign) else st.target) == roles['next'] and not (isinstance(st, ast.Assign) and norm(st.value) == roles['now'])]
     texts = [norm(s) for s in nxt]
-    ok = len(nxt) == 2 and isinstance(nxt[0], ast.Assign) and isinstance(nxt[0].value, ast.BinOp) and isinstance(nxt[0].value.op, ast.Add) and {norm(nxt[0].value.left), norm(nxt[0].value.right)} == {roles['now'], roles['delay']} and isinstance(nxt[1], ast.AugAssign) and isinstance(nxt[1].op, ast.Add) and isinstance(nxt[1].value, ast.Call) and call_name(nxt[1].value) == '_get_random_delay'
+    # the statements that set it, composed in order (`next = now + delay; next += jitter` and `next = now + delay + jitter` are
+    # the same value)
+    ok = False
+    try:
+        symn = lambda x: {roles['now']: 'NOW', roles['delay']: 'DELAY'}.get(x.id) if isinstance(x, ast.Name) else ('JIT' if isinstance(x, ast.Call) and call_name(x) == '_get_random_delay' else None)  # noqa: E731
+        acc = None
+        for st_n in nxt:
+            if isinstance(st_n, ast.Assign):
+                acc = lf.poly(prog, rq.module, st_n.value, symn, {roles['next']: acc} if acc is not None else None)
+            elif isinstance(st_n.op, (ast.Add, ast.Sub)) and acc is not None:
+                acc = lf.p_add(acc, lf.poly(prog, rq.module, st_n.value, symn), 1 if isinstance(st_n.op, ast.Add) else -1)
+            else:
+                acc = None
+                break
+        ok = acc is not None and acc == lf.parse_poly('NOW + DELAY + JIT')
+    except lf.NotLinear:
+        ok = False
     obs.append(ob(R, rq, '; '.join(texts), 'the next query time is now + delay + random jitter', ok))
     # `at least one second apart after the second`: the round that sends a QM query sets the time of the NEXT query with the
     # raised delay (999 ms + jitter) -- evaluated for a QM round that starts with the initial delay
@@ -706,16 +732,16 @@ def const(ctx: Any) -> List[Ob]:
         # interval; afterwards the delay is at least the interval in every QM case and untouched in every QU case
         QMs = fd.Evaluator(prog, rq.module, {}).ev(ast.Name(id='QM_QUESTION', ctx=ast.Load()))
         k_iv = prog.const('zeroconf.const', '_DUPLICATE_QUESTION_INTERVAL')
-        from .c18 import round_type_value
+        from .c18 import round_type_values
 
-        rt_expr = round_type_value(ctx, roles)
         p_qt_r = rq.params[3]
         # the type tested is the type of the query just built in this round (not the caller's forced type, which is usually None):
         # the round's type is computed from (forced type, first?) and the test is evaluated with it
         for forced in (None, QU, QM):
             for is_first in (True, False):
                 base = {p_qt_r: forced, roles['first']: is_first}
-                round_v = fd.Evaluator(prog, rq.module, base).ev(rt_expr)
+                rvs = round_type_values(ctx, roles, forced, is_first)
+                round_v = next(iter(rvs)) if len(rvs) == 1 and 'UNKNOWN' not in rvs else fd.UNKNOWN
                 is_qm = round_v == QMs
                 for d0 in (200, k_iv - 1, k_iv, k_iv + 1, 5000):
                     atoms_r = {roles['qtype']: round_v, roles['delay']: d0} if roles['qtype'] else dict(base, **{roles['delay']: d0})
